@@ -204,7 +204,7 @@ class LDAWrapper(LinearSolver):
                 x0_loc[idia, ...] = 0
                 for x in x_data:
                     beta = x0_loc[isel, ...].T @ x.conj() / (x.conj() @ x)
-                    x0_loc[isel, ...] -= beta * x
+                    x0_loc[isel, ...] -= x[:, None] * beta
             else:
                 x0_loc = None
 
